@@ -20,7 +20,12 @@ SRC = Path(os.environ.get("VERIF_REPO") or "/repo") / "src" / "tickit"
 OUT = Path(os.environ.get("VERIF_ROOT") or "/verif") / "coq" / "Gen" / "SourceFuns.v"
 
 COQ_TYPE = {"dict": "list (positive * Z)", "pairs": "list (positive * Z)", "set": "list positive", "Z": "Z", "pos": "positive",
-            "optZ": "option Z", "bool": "bool", "listZ": "list Z"}
+            "optZ": "option Z", "bool": "bool", "listZ": "list Z", "w": "wiring", "iw": "iwiring",
+            "routed": "list (comp * list (port * Z))"}
+
+# nested wiring dictionaries (Model/Wiring.v): what the elements of a loop over them are
+ELEMS = {"items:iw": ("pos", "iw_inner"), "items:w": ("pos", "w_inner"), "items:iw_inner": ("pos", "cport"),
+         "items:w_inner": ("pos", "cports"), "cports": ("pos", "pos"), "pairs": ("pos", "Z")}
 
 
 class Unrecognised(Exception):
@@ -94,6 +99,10 @@ class Tr:
             i, ki = self.expr(e.slice)
             if kd == "dict" and ki == "pos":
                 return (f"(lookup {i} {d})", "optZ")
+            if kd == "w" and ki == "pos":                  # a default dictionary: a missing entry reads as empty
+                return (f"(get_d {i} {d})", "w_inner")
+            if kd == "w_inner" and ki == "pos":
+                return (f"(get_d {i} {d})", "cports")
             raise Unrecognised(f"subscript of {kd} by {ki}")
         if isinstance(e, ast.BinOp) and isinstance(e.op, ast.Add):
             a, ka = self.expr(e.left)
@@ -206,6 +215,16 @@ class Tr:
                             {"set": "set", "list": "pairs", "dict": "dict"}[f.id])
                 a, k = self.expr(e.args[0])
                 return (a, k)
+            if f.id == "defaultdict" and len(e.args) == 1 and isinstance(e.args[0], ast.Name) and e.args[0].id == "dict":
+                return ("(@nil (comp * list (port * Z)))", "routed")
+            if f.id == "cls" and not e.args and not e.keywords and "cls" in self.env:   # the empty instance of the class
+                return self.env["cls"]
+            if f.id == "ComponentPort" and len(e.args) == 2 and not e.keywords:
+                a, ka = self.expr(e.args[0])
+                b, kb = self.expr(e.args[1])
+                if (ka, kb) != ("pos", "pos"):
+                    raise Unrecognised("ComponentPort of other than a component and a port")
+                return (f"({a}, {b})", "cport")
             if f.id in ("SimTime", "ComponentID", "PortID") and len(e.args) == 1:     # NewType constructors
                 return self.expr(e.args[0])
             if f.id == "DeviceUpdate" and len(e.args) == 2:
@@ -215,6 +234,10 @@ class Tr:
         if isinstance(f, ast.Attribute):
             if f.attr == "Outputs" and not e.args and len(e.keywords) == 1:              # a TypedDict with one entry
                 return self.expr(e.keywords[0].value)
+            if f.attr == "items" and not e.args:
+                d, k = self.expr(f.value)
+                if k in ("w", "iw", "w_inner", "iw_inner"):
+                    return (d, "items:" + k)
             if f.attr in ("values", "items", "keys") and not e.args:
                 d, k = self.expr(f.value)
                 if k != "dict":
@@ -236,19 +259,36 @@ class Tr:
         raise Unrecognised(f"call {ast.dump(e)[:100]}")
 
     # ---------------------------------------------------------------- statements
+    def base_of(self, e):
+        while isinstance(e, ast.Subscript):
+            e = e.value
+        return self.name_of(e)
+
     def assigned(self, stmts):
         out = []
         for s in stmts:
-            tg = None
+            tgs = []
             if isinstance(s, ast.Assign) and len(s.targets) == 1:
-                t = s.targets[0]
-                tg = self.name_of(t.value) if isinstance(t, ast.Subscript) else self.name_of(t)
+                tgs = [self.base_of(s.targets[0])]
             elif isinstance(s, ast.Expr) and isinstance(s.value, ast.Call) and isinstance(s.value.func, ast.Attribute) \
-                    and s.value.func.attr == "append":
-                tg = self.name_of(s.value.func.value)
-            if tg and tg not in out:
-                out.append(tg)
+                    and s.value.func.attr in ("append", "add"):
+                tgs = [self.base_of(s.value.func.value)]
+            elif isinstance(s, ast.Expr) and isinstance(s.value, ast.Subscript):
+                tgs = [self.base_of(s.value)]
+            elif isinstance(s, ast.For):
+                tgs = self.assigned(s.body)
+            for tg in tgs:
+                if tg and tg not in out:
+                    out.append(tg)
         return out
+
+    def subscripts(self, e):
+        """X[a][b] -> (name of X, [a, b])"""
+        idx = []
+        while isinstance(e, ast.Subscript):
+            idx.insert(0, e.slice)
+            e = e.value
+        return self.name_of(e), idx
 
     def bind(self, name, kind):
         coq = name.replace("self.", "self_").lstrip("_") if not name.startswith("self.") else "self_" + name[5:].lstrip("_")
@@ -271,6 +311,48 @@ class Tr:
             return ret(s.value)
         if isinstance(s, ast.AnnAssign) and s.value is not None:
             s = ast.Assign(targets=[s.target], value=s.value)
+        # ---- nested default dictionaries of Model/Wiring.v
+        if isinstance(s, ast.Expr) and isinstance(s.value, ast.Subscript):               # wiring[c]: creates the entry
+            n, idx = self.subscripts(s.value)
+            if n in self.env and self.env[n][1] in ("w", "iw") and len(idx) == 1:
+                i, ki = self.expr(idx[0])
+                if ki != "pos":
+                    raise Unrecognised("index of a wiring is not a component")
+                d, kd = self.env[n]
+                c = self.bind(n, kd)
+                return f"let {c} := touch {i} {d} in\n  {self.block(rest, ret)}"
+        if isinstance(s, ast.Expr) and isinstance(s.value, ast.Call) and isinstance(s.value.func, ast.Attribute) \
+                and s.value.func.attr == "add" and len(s.value.args) == 1:                # wiring[oc][op].add(ComponentPort(ic, ip))
+            n, idx = self.subscripts(s.value.func.value)
+            if n in self.env and self.env[n][1] == "w" and len(idx) == 2:
+                a, ka = self.expr(idx[0])
+                b, kb = self.expr(idx[1])
+                v, kv = self.expr(s.value.args[0])
+                if (ka, kb, kv) != ("pos", "pos", "cport"):
+                    raise Unrecognised(f"wiring[{ka}][{kb}].add({kv})")
+                d, kd = self.env[n]
+                c = self.bind(n, kd)
+                return f"let {c} := add_target {d} {a} {b} {v} in\n  {self.block(rest, ret)}"
+        if isinstance(s, ast.Assign) and len(s.targets) == 1 and isinstance(s.targets[0], ast.Subscript):
+            n, idx = self.subscripts(s.targets[0])
+            if n in self.env and self.env[n][1] == "routed" and len(idx) == 2:           # routed[ic][ip] = value
+                a, ka = self.expr(idx[0])
+                b, kb = self.expr(idx[1])
+                v, kv = self.expr(s.value)
+                if (ka, kb, kv) != ("pos", "pos", "Z"):
+                    raise Unrecognised(f"routed[{ka}][{kb}] = {kv}")
+                d, kd = self.env[n]
+                c = self.bind(n, kd)
+                return f"let {c} := upd {a} (upd {b} {v} (get_d {a} {d})) {d} in\n  {self.block(rest, ret)}"
+            if n in self.env and self.env[n][1] == "iw" and len(idx) == 2:               # inverse_wiring[ic][ip] = ComponentPort(oc, op)
+                a, ka = self.expr(idx[0])
+                b, kb = self.expr(idx[1])
+                v, kv = self.expr(s.value)
+                if (ka, kb, kv) != ("pos", "pos", "cport"):
+                    raise Unrecognised(f"inverse_wiring[{ka}][{kb}] = {kv}")
+                d, kd = self.env[n]
+                c = self.bind(n, kd)
+                return f"let {c} := set_source {d} {a} {b} {v} in\n  {self.block(rest, ret)}"
         if isinstance(s, ast.Assign) and len(s.targets) == 1:
             t = s.targets[0]
             if isinstance(t, ast.Subscript):                                             # d[k] = v
@@ -309,26 +391,37 @@ class Tr:
             return f"if {c} then {then}\n  else {self.block(rest, ret)}"
         if isinstance(s, ast.For) and not s.orelse:
             it, kit = self.expr(s.iter)
-            if kit != "pairs":
+            if kit not in ELEMS:
                 raise Unrecognised(f"for over {kit}")
-            if not (isinstance(s.target, ast.Tuple) and len(s.target.elts) == 2 and all(isinstance(x, ast.Name) for x in s.target.elts)):
-                raise Unrecognised("for target is not a pair of names")
-            a, b = (x.id for x in s.target.elts)
+            ka, kb = ELEMS[kit]
+            if not (isinstance(s.target, ast.Tuple) and len(s.target.elts) == 2 and isinstance(s.target.elts[0], ast.Name)):
+                raise Unrecognised("for target is not a pair")
             acc = self.assigned(s.body)
             if not acc or any(n not in self.env for n in acc):
                 raise Unrecognised("loop body assigns nothing / an uninitialised variable")
             before = [self.env[n] for n in acc]
             inner = Tr(self.env)
             inner.mutated = self.mutated
-            inner.env[a] = (a, "pos")
-            inner.env[b] = (b, "Z")
+            a = s.target.elts[0].id
+            inner.env[a] = (a, ka)
+            second = s.target.elts[1]
+            if isinstance(second, ast.Name):
+                elpat = f"'({a}, {second.id})"
+                inner.env[second.id] = (second.id, kb)
+            elif kb == "cport" and isinstance(second, ast.Tuple) and len(second.elts) == 2 and all(isinstance(x, ast.Name) for x in second.elts):
+                c1, c2 = (x.id for x in second.elts)
+                elpat = f"'({a}, ({c1}, {c2}))"
+                inner.env[c1] = (c1, "pos")
+                inner.env[c2] = (c2, "pos")
+            else:
+                raise Unrecognised("for target shape")
             body = inner.block(s.body, lambda v: "(" + ", ".join(inner.env[n][0] for n in acc) + ")" if v is None else (_ for _ in ()).throw(Unrecognised("return in a loop")))
             pat = "(" + ", ".join(c for c, _ in before) + ")" if len(acc) > 1 else before[0][0]
             for n, (c, k) in zip(acc, before):
                 self.bind(n, k)
-            return (f"let '{pat} := fold_left (fun '{pat} '({a}, {b}) =>\n      {body}) {it} {pat} in\n  {self.block(rest, ret)}"
+            return (f"let '{pat} := fold_left (fun '{pat} {elpat} =>\n      {body}) {it} {pat} in\n  {self.block(rest, ret)}"
                     if len(acc) > 1 else
-                    f"let {pat} := fold_left (fun {pat} '({a}, {b}) =>\n      {body}) {it} {pat} in\n  {self.block(rest, ret)}")
+                    f"let {pat} := fold_left (fun {pat} {elpat} =>\n      {body}) {it} {pat} in\n  {self.block(rest, ret)}")
         raise Unrecognised(f"statement {ast.dump(s)[:100]}")
 
 
@@ -341,7 +434,9 @@ def translate(spec):
         c = "self_" + f.lstrip("_")
         env["self." + f] = (c, k)
         args.append((c, k))
-    declared = [a.arg for a in fn.args.args if a.arg != "self"]
+    if "cls_kind" in spec:
+        env["cls"] = ({"w": "(@nil (comp * list (port * list cport)))", "iw": "(@nil (comp * list (port * cport)))"}[spec["cls_kind"]], spec["cls_kind"])
+    declared = [a.arg for a in fn.args.args if a.arg not in ("self", "cls")]
     if declared != list(spec.get("params", {})):
         raise Unrecognised(f"parameters are {declared}")
     for p, k in spec.get("params", {}).items():
@@ -460,6 +555,12 @@ SPECS = [
     dict(section="out_changes", file="core/components/device_component.py", cls="DeviceComponent", func="on_tick",
          name="gen_out_changes", fields={"device_inputs": "dict", "last_outputs": "dict"}, params={"time": "ignored", "changes": "dict"},
          extract=extract_out_changes),
+    dict(section="from_inverse_wiring", file="core/management/event_router.py", cls="Wiring", func="from_inverse_wiring",
+         name="gen_from_inverse_wiring", cls_kind="w", params={"inverse_wiring": "iw"}),
+    dict(section="from_wiring", file="core/management/event_router.py", cls="InverseWiring", func="from_wiring",
+         name="gen_from_wiring", cls_kind="iw", params={"wiring": "w"}),
+    dict(section="route", file="core/management/event_router.py", cls="EventRouter", func="route",
+         name="gen_route", fields={"wiring": "w"}, params={"source": "pos", "changes": "dict"}),
     dict(section="iobox_write", file="devices/iobox.py", cls="IoBoxDevice", func="write", name="gen_iobox_write",
          fields={"_memory": "dict", "_change_buffer": "pairs"}, params={"addr": "pos", "value": "Z"}),
     dict(section="iobox_read", file="devices/iobox.py", cls="IoBoxDevice", func="read", name="gen_iobox_read",
@@ -471,7 +572,7 @@ SPECS = [
 
 def main():
     parts = ["(* GENERATED by harness/gen_funs.py from the tickit sources -- do not edit *)",
-             "From TV Require Import Base Model.PyLib.", "Open Scope Z_scope.", ""]
+             "From TV Require Import Base Model.PyLib Model.Wiring.", "Open Scope Z_scope.", ""]
     notes = []
     for spec in SPECS:
         try:
